@@ -208,6 +208,22 @@ func runC03(c *Ctx) {
 	c.CheckGuard("C03.P2", "GetUniqueSuffix:non-empty-algorithms", gus, nil, cmpReject("len(algs) == 0 rejected", token.EQL, pathIs("len($1)"), pathIs("0")))
 	c.Min("C03.P2", 2)
 
+	// ---- E1 validation is read-only: the suffix and the hashes are computed from the decoded request after it was
+	// validated — a validator that rewrites a member (normalises, trims, defaults) changes what is hashed, so two
+	// different suffix-data objects could denote one DID
+	if vsf, vdf := c.Method(pParser, "Parser", "ValidateSuffixData"), c.Method(pParser, "Parser", "ValidateDelta"); vsf != nil && vdf != nil {
+		nonRecv := func(f *ssa.Function) []*ssa.Parameter {
+			if f.Signature.Recv() != nil {
+				return f.Params[1:]
+			}
+			return f.Params
+		}
+		c.runEffectQuiet("C03.E1", []*ssa.Function{vsf, vdf}, nonRecv, "ValidateSuffixData/ValidateDelta", 2)
+	} else {
+		c.Unresolved("C03.E1", "(*Parser).ValidateSuffixData / ValidateDelta")
+	}
+	c.Min("C03.E1", 2)
+
 	// ---- P3
 	c.Analysed(po)
 	nd, _ := c.ConstVal("docutil", "NamespaceDelimiter")
